@@ -10,9 +10,12 @@ map_back_action_instance called on every ground action of the compiled problem, 
 states from the real MultiAgentProblem.initial_value.
 
 spec/MASem.tla owns the semantics: it resolves names (the multi-agent scoping rule), flattens
-both problems to UPSeqSem problems and judges -- in EVERY state over the ground fluents of the
-compiled problem, enumerated by TLC as initial states -- applicability, successors, uniqueness of
-the applicable variant (conditional-effects remover) and goal equivalence.  Python decides nothing.
+both problems to UPSeqSem problems and judges -- in EVERY total state over the ground fluents of the
+compiled problem (TLC generates all of them, not only the reachable ones) -- applicability,
+successors, uniqueness of the applicable variant (conditional-effects remover) and goal
+equivalence modulo the fake-goal mechanism.  Python decides nothing.
+
+./check C37 --selftest corrupts recorded fields one at a time and shows that the judge rejects.
 """
 import itertools
 import os
@@ -80,7 +83,6 @@ class MAGen:
         # agent fluents: a pool of names shared by the agents (the same Fluent object is then added to
         # several agents, as the library's own examples do)
         anames = ["a%d" % (i + 1) for i in range(self.nagents)]
-        pool = {}
         agents = []
         for an in anames:
             agents.append({"name": an, "fluents": [], "public": [], "actions": []})
@@ -637,6 +639,8 @@ def judge(ctx, recs, label, workers=8):
 def run(ctx):
     q = ctx.quick
     per = 22 if q else 90
+    if os.environ.get("C37_PER"):  # development knob (smaller corpora on a busy machine); not part of the contract
+        per = int(os.environ["C37_PER"])
     maxg = 8
     cap_states = 1100 if q else 2100
     jobs = []
@@ -672,6 +676,9 @@ def run(ctx):
             continue
         s["judged"] += 1
         batch.append(r)
+    if os.environ.get("C37_SLICE"):  # development knob: judge every n-th compilation of the same corpus ("i/n")
+        i, n = (int(x) for x in os.environ["C37_SLICE"].split("/"))
+        batch = batch[i::n]
     if not any(r["raised"] == "none" for r in batch):
         raise MachineryError("no compilation succeeded")
     res = judge(ctx, batch, "all")
@@ -713,6 +720,7 @@ def run(ctx):
     judged = [r for r in batch if r["raised"] == "none"]
     ctx.cov["evaluations"] = sum(r["nstates"] * len([b for b in r["back"]]) for r in judged)
     ctx.cov["traces_validated_against_impl"] = len(judged)
+
     def split(r):  # some original ground action has several variants
         seen = [(b["pa"], tuple(x["o"] for x in b["pargs"])) for b in r["back"] if b["pa"]]
         return len(set(seen)) < len(seen)
@@ -729,11 +737,12 @@ def run(ctx):
     ctx.cov["rule"] = (
         "per compiler %d generated 2-agent problems (<= %d ground fluents, every 4th with object-valued fluents), compiled by "
         "the real MA remover; one evaluation = one (state, compiled ground action) pair: ALL total states over the compiled "
-        "problem's ground fluents (<= %d per compilation) are enumerated by TLC as initial states and judged by MASem!Verdict; "
+        "problem's ground fluents (<= %d per compilation; all of them, generated by TLC as the successors of one root state per "
+        "compilation, not only the reachable ones) are judged by MASem!Verdict; "
         "non-trivial = the compilation split some action into several variants or introduced auxiliary fluents."
         % (per, maxg, cap_states)
     )
-    ex = next(r for r in judged if len(r["back"]) > 4)
+    ex = next((r for r in judged if len(r["back"]) > 4), judged[0])
     ctx.sample({"compiler": ex["comp"], "original_agents": [{"name": a["name"], "fluents": [f["name"] for f in a["fluents"]],
                                                               "actions": [x["name"] for x in a["actions"]]} for a in ex["MP"]["agents"]],
                 "goals": ex["MP"]["goals"], "back": ex["back"][:8], "states": ex["nstates"]})
@@ -808,7 +817,6 @@ def selftest(ctx):
 
     for base in recs:
         variant(base, None, lambda r: None)
-        pas = sorted({b["pa"] for b in base["back"] if b["pa"]})
 
         def wrong_back(r):
             row = next(b for b in r["back"] if b["pa"])
